@@ -269,6 +269,112 @@ def fold_expr_stage(ctx: vlib.Ctx, rng: vlib.Rng) -> None:
     ctx.cov["fold_expr_folded"] = folded
 
 
+# ------------------------------------------------------------------ (d) float / str / bytes folding
+
+def fbits(x: float) -> str:
+    import struct
+    return struct.pack(">d", x).hex()
+
+
+def fold_float_str_stage(ctx: vlib.Ctx, exe: str | None) -> None:
+    """Float folding on boundary operands bit-exactly against eval (the model keeps float values symbolic: its theorems are
+    about the guards, monitored here: fold_float_guard_exact, pow_contract, fold_float_crash_only_conversion);
+    str / bytes folding: implementation vs eval vs the regenerated model."""
+    import math
+    import warnings
+    from mypy import constant_fold as cf
+    from mypyc.irbuild.constant_fold import constant_fold_binary_op_extended as cfx
+    floats = [0.0, -0.0, 1.0, -1.0, 0.5, -0.5, 2.0, -2.0, 1.5, 3.0, -3.0, 0.1, 1e16, float("inf"), float("-inf"), float("nan"),
+              5e-324, -5e-324, 2.2250738585072014e-308, 1.7976931348623157e308, -1.7976931348623157e308, 1e308, 1e-308, 1024.0, -1024.0]
+    ints = [0, 1, -1, 2, -2, 3, 1023, 1024, -1025, 2 ** 53 + 1, 2 ** 1023, 2 ** 1024, -2 ** 1024, 10 ** 400, -10 ** 400]
+    pairs = [(a, b) for a in floats for b in floats] + [(a, b) for a in floats for b in ints] + [(a, b) for a in ints for b in floats]
+    n = folded = conservative = 0
+    for op in ["+", "-", "*", "/", "//", "%", "**"]:
+        for l, r in pairs:
+            n += 1
+            with warnings.catch_warnings():
+                warnings.simplefilter("ignore")
+                try:
+                    v: Any = eval("l " + op + " r", {"l": l, "r": r})
+                    ek = "ok"
+                except Exception as e:  # noqa
+                    v, ek = None, type(e).__name__
+                try:
+                    got: Any = cf.constant_fold_binary_float_op(op, l, r)
+                    gk = "ok"
+                except Exception as e:  # noqa
+                    got, gk = None, type(e).__name__
+            case = {"kind": "fold_float", "op": op, "left": repr(l), "right": repr(r), "impl": f"{gk} {got!r}", "cpython": f"{ek} {v!r}"}
+            big = any(isinstance(x, int) and abs(x) >= 2 ** 1024 for x in (l, r))
+            if gk != "ok":
+                if gk == "OverflowError" and big and op != "**":
+                    key = "F7:fold-float-int-operand-too-large-raises-OverflowError"
+                else:
+                    key = f"fold-float-raise:{op}:{l!r}:{r!r}"
+                ctx.violation(key, f"constant_fold_binary_float_op({op!r}, {l!r}, {r!r}) raises {gk} (mypy INTERNAL ERROR on "
+                              f"`X: Final = {l!r} {op} {r!r}`); CPython: {ek}", case)
+                continue
+            if got is not None:
+                folded += 1
+                if not (ek == "ok" and type(v) is float and type(got) is float and (fbits(v) == fbits(got) or (math.isnan(v) and math.isnan(got)))):
+                    ctx.violation(f"fold-float:{op}:{l!r}:{r!r}", f"constant_fold_binary_float_op({op!r}, {l!r}, {r!r}) = {got!r} but CPython gives {ek} {v!r}", case)
+                continue
+            # not folded: must be a CPython error / complex, or the documented conservative `**` cases
+            if ek == "ok" and type(v) is float:
+                if op == "**" and (l == 0 or (l < 0 and isinstance(r, float)) or l != l):
+                    conservative += 1
+                else:
+                    ctx.broke("C", "float folding guard exactness (fold_float_guard_exact / fold_float_arith_total)",
+                              f"{op} {l!r} {r!r}: not folded although CPython computes {v!r}", case)
+            # monitored contract on float_pow
+            if op == "**" and not big:
+                if ek == "ZeroDivisionError" and l != 0:
+                    ctx.broke("C", "pow_contract: ZeroDivisionError with a non-zero base", f"{l!r} ** {r!r}", case)
+                if ek == "ok" and type(v) is complex and not (l < 0 and isinstance(r, float)):
+                    ctx.broke("C", "pow_contract: complex result outside negative base / float exponent", f"{l!r} ** {r!r}", case)
+            if op in ("/", "//", "%") and ek == "ZeroDivisionError" and r != 0:
+                ctx.broke("C", "float division: ZeroDivisionError with a non-zero divisor", f"{l!r} {op} {r!r}", case)
+    ctx.add("evaluations", n)
+    ctx.cov["fold_float_cases"] = n
+    ctx.cov["fold_float_folded"] = folded
+    ctx.cov["fold_float_pow_conservatively_unfolded"] = conservative
+    # str / bytes
+    strs = ["", "a", "ab", "x y", "~!"]
+    cnt = [-2, -1, 0, 1, 2, 3]
+    hx = lambda b: b.hex() or "-"  # noqa
+    lines: list[str] = []
+    want: list[str] = []
+    m = 0
+    for op in ["+", "*", "-", "%"]:
+        combos: list[tuple[str, Any, Any]] = [("ss", a, b) for a in strs for b in strs] + [("si", a, k) for a in strs for k in cnt] + [("is", k, a) for a in strs for k in cnt]
+        combos += [("bb", a.encode(), b.encode()) for a in strs for b in strs] + [("bi", a.encode(), k) for a in strs for k in cnt] + [("ib", k, a.encode()) for a in strs for k in cnt]
+        for kind, l, r in combos:
+            m += 1
+            isb = "b" in kind
+            try:
+                got = (cfx if isb else cf.constant_fold_binary_op)(op, l, r)
+                gs = "N" if got is None else (("B " if isb else "S ") + hx(got if isb else got.encode()))
+            except Exception as e:  # noqa
+                gs = "C " + type(e).__name__
+            try:
+                v = eval("l " + op + " r", {"l": l, "r": r})
+            except Exception:  # noqa
+                v = None
+            if gs.startswith("C ") or (got is not None and (type(v) is not type(got) or v != got)):
+                ctx.violation(f"fold-seq:{op}:{l!r}:{r!r}", f"folding {l!r} {op} {r!r} gives {gs}, CPython {v!r}", {"kind": "fold_seq", "op": op, "l": repr(l), "r": repr(r)})
+            enc = lambda x: zt(x) if isinstance(x, int) else hx(x if isinstance(x, bytes) else x.encode())  # noqa
+            lines.append(f"{'foldbytes' if isb else 'foldstr'} {kind} {op} {enc(l)} {enc(r)}")
+            want.append(gs)
+    if exe:
+        for ln, w, g in zip(lines, want, run_driver(exe, lines)):
+            if w != g:
+                ctx.broke("C", "str/bytes fold translator self-correspondence", f"{ln}: model {g} impl {w}")
+                break
+        ctx.add("traces_validated_against_impl", m)
+    ctx.add("evaluations", m)
+    ctx.cov["fold_seq_cases"] = m
+
+
 # ------------------------------------------------------------------ (c) version / platform tests
 
 def idx_forms() -> list[tuple[str, list[str]]]:
@@ -349,9 +455,12 @@ def version_stage(ctx: vlib.Ctx, exe: str | None) -> None:
                         rt.append("raise:" + type(ex).__name__)
                 meta.append({"src": src, "target": [major, minor], "impl": iv, "rt": rt,
                              "enc": lenc, "neg_literal": (rval < 0) if isinstance(rval, int) else any(c < 0 for c in rval)})
-                lines_c.append(f"consider {zt(major)} {zt(minor)} {op} {' '.join(lenc)} {' '.join(renc)}")
-                lines_f.append(f"f5 {zt(major)} {zt(minor)} {op} {' '.join(lenc)} {' '.join(renc)}")
-                lines_r.append([f"runtime {zt(major)} {zt(minor)} {zt(mic)} {op} {' '.join(lenc)} {' '.join(renc)}" for mic in micros])  # type: ignore
+                # flipped: the model gets the WRITTEN operator and reverses it with the reverse_op table regenerated from the source
+                wop = rev.get(op, op) if flipped else op
+                fl = "f" if flipped else ""
+                lines_c.append(f"consider{fl} {zt(major)} {zt(minor)} {wop} {' '.join(lenc)} {' '.join(renc)}")
+                lines_f.append(f"f5{fl} {zt(major)} {zt(minor)} {wop} {' '.join(lenc)} {' '.join(renc)}")
+                lines_r.append([f"runtime{fl} {zt(major)} {zt(minor)} {zt(mic)} {wop} {' '.join(lenc)} {' '.join(renc)}" for mic in micros])  # type: ignore
     ctx.log(f"(c) {n} version tests x {len(micros)} micro versions")
     f5s = ["none"] * len(meta)
     if exe:
@@ -360,6 +469,10 @@ def version_stage(ctx: vlib.Ctx, exe: str | None) -> None:
         mr = run_driver(exe, [l for ls in lines_r for l in ls])  # type: ignore
         bad = 0
         for i, m in enumerate(meta):
+            if mc[i] == "raise":
+                bad += 1
+                ctx.broke("C", "consider_core raises IndexError", f"{m['src']} target {m['target']}", m)
+                continue
             mv = tz(mc[i])
             if m["neg_literal"]:
                 mv = 5  # glue rule: a negative literal is a UnaryExpr, not an IntExpr: never destructured, UNKNOWN
@@ -422,11 +535,21 @@ def version_stage(ctx: vlib.Ctx, exe: str | None) -> None:
         if all(32 < ord(c) < 127 for c in p + lit) and p and lit:
             lines.append(f"platform {p} {op} {lit}")
             pm.append((src, p, iv))
+    sw_lines = []
+    sw_meta = []
     for p, lit in itertools.product(plats, lits):
         src = f"sys.platform.startswith({lit!r})"
         iv = R.consider_sys_platform(parse_expr(src), p)
         if iv in (1, 3) and (iv == 1) is not p.startswith(lit):
             ctx.violation(f"platform:{src}:{p}", f"{src} with platform {p!r}: mypy {iv}", {"src": src, "platform": p})
+        if all(32 < ord(c) < 127 for c in p + lit) and p and lit:
+            sw_lines.append(f"startswith {p} {lit}")
+            sw_meta.append((src, p, iv))
+    if exe:
+        for (src, p, iv), m in zip(sw_meta, run_driver(exe, sw_lines)):
+            if tz(m) != iv:
+                ctx.broke("C", "platform_startswith_core vs consider_sys_platform", f"{src} platform {p}: model {tz(m)} impl {iv}")
+                break
     if exe:
         out = run_driver(exe, lines)
         for (src, p, iv), m in zip(pm, out):
@@ -453,8 +576,8 @@ def version_stage(ctx: vlib.Ctx, exe: str | None) -> None:
     if exe:
         out = run_driver(exe, lines)
         for l, m, x in zip(lines, out, exp):
-            if tz(m) != x:
-                ctx.broke("C", "and/or/not table vs infer_condition_value", f"{l}: model {tz(m)} impl {x}")
+            if m == "raise" or tz(m) != x:
+                ctx.broke("C", "and/or/not table vs infer_condition_value", f"{l}: model {m} impl {x}")
     ctx.add("evaluations", len(lines))
     ctx.cov["exhaustive_tables"] = "and/or/not table: all 5x5x2+5 cells through infer_condition_value"
 
@@ -478,6 +601,7 @@ def run(ctx: vlib.Ctx) -> None:
     if exe is None:
         ctx.broke("C", "extraction", "extracted model does not build")
     fold_stage(ctx, exe)
+    fold_float_str_stage(ctx, exe)
     version_stage(ctx, exe)
     try:
         from harness import C12ab
